@@ -22,6 +22,29 @@ def layout_slots(sizes):
     return slots
 
 
+def layout_slots_bv(sizes):
+    """the same rule over 16-bit vectors: exact for member sizes <= 256 (no sum exceeds 512)"""
+    free, slots = z3.BitVecVal(0, 16), z3.BitVecVal(0, 16)
+    for s in sizes:
+        fits = z3.ULE(s, free)
+        slots = z3.If(fits, slots, slots + 1)
+        free = z3.If(fits, free - s, 256 - s)
+    return slots
+
+
+def sorted_slots_bv(sizes, descending=False):
+    n = len(sizes)
+    if n <= 1:
+        return layout_slots_bv(sizes)
+    out = None
+    for perm in itertools.permutations(range(n)):
+        p = [sizes[i] for i in perm]
+        mono = z3.And([z3.UGE(p[i], p[i + 1]) if descending else z3.ULE(p[i], p[i + 1]) for i in range(n - 1)])
+        v = layout_slots_bv(p)
+        out = v if out is None else z3.If(mono, v, out)
+    return out
+
+
 def sorted_slots(sizes, descending=False):
     """slots of the size-sorted order, defined without reference to any sorting algorithm: every permutation that is
     monotone gives the same value (ties are equal sizes)"""
@@ -197,8 +220,8 @@ def check_pack_detector(chk, detector, n, kinds, where):
         target = b.struct('S', [(t, 'v%d' % i) for i, t in enumerate(types)])
         su = b.source_unit([b.supart(b.contract('Contract', 'C', [b.cpart(target)]))])
     target_id = sol.loc_id(target.fields[0])
-    sizes = [z3.BV2Int(k, False) * 8 for k in ks]
-    declared, asc, desc = layout_slots(sizes), sorted_slots(sizes), sorted_slots(sizes, True)
+    sizes = [k * 8 for k in ks]
+    declared, asc, desc = layout_slots_bv(sizes), sorted_slots_bv(sizes), sorted_slots_bv(sizes, True)
     res = e.explore(lambda e: e.call_mir(fn, [su]), base_constraints=pre, max_paths=200000)
     n_rep = n_not = 0
     for r in res:
@@ -215,11 +238,11 @@ def check_pack_detector(chk, detector, n, kinds, where):
             elif ids:
                 n_rep += 1
                 reported = True
-                viol, why = z3.Not(asc < declared), 'reported although sorting by size does not save a slot'
+                viol, why = z3.Not(z3.ULT(asc, declared)), 'reported although sorting by size does not save a slot'
             else:
                 n_not += 1
                 reported = False
-                viol, why = z3.And(asc < declared, desc < declared), 'not reported although both sort directions save a slot'
+                viol, why = z3.And(z3.ULT(asc, declared), z3.ULT(desc, declared)), 'not reported although both sort directions save a slot'
         s.add(viol)
         chk.queries += 1
         res_q = s.check()
@@ -283,7 +306,7 @@ def concretize_widths(v, m):
 
 def body(chk):
     maxlen = 5 if chk.quick else 7
-    nmem = 3 if chk.quick else 4
+    nmem = 4 if chk.quick else 5
     chk.bounds = {'storage_slots_used: vector length': '0..%d' % maxlen, 'member sizes': '8*k bits, k in 1..32',
                   'pack detectors: members per contract/struct': '1..%d' % nmem,
                   'outside': 'longer member lists; members of non-elementary type (all count 256 bits, covered by get_type_size)'}
@@ -291,12 +314,15 @@ def body(chk):
                        'Vec/HashSet contracts of DESIGN.md 2.4', 'parser produces uintN/intN with N in 8..256 step 8 and bytesN with N in 1..32']
     check_type_size(chk)
     check_slots(chk, maxlen)
+    cases = []
     for n in range(1, nmem + 1):
         kinds = ['uint'] if n >= 3 else ['uint', 'int', 'bytes']
-        check_pack_detector(chk, 'pack_storage_variables', n, kinds, 'contract')
-        check_pack_detector(chk, 'pack_struct_variables', n, kinds, 'struct_file')
-    check_pack_detector(chk, 'pack_struct_variables', 2, ['uint', 'bytes'], 'struct_contract')
-    check_pack_detector(chk, 'pack_struct_variables', 3, ['uint'], 'struct_contract')
+        cases.append(('pack_storage_variables', n, kinds, 'contract'))
+        cases.append(('pack_struct_variables', n, kinds, 'struct_file'))
+    cases.append(('pack_struct_variables', 2, ['uint', 'bytes'], 'struct_contract'))
+    cases.append(('pack_struct_variables', 3, ['uint'], 'struct_contract'))
+    cases.append(('pack_struct_variables', nmem, ['uint'], 'struct_contract'))
+    chk.parallel(lambda c, it: check_pack_detector(c, *it), cases)
 
 
 if __name__ == '__main__':
